@@ -128,7 +128,7 @@ def gen_c03(env, tier, prop="C03", funcs=None):
         if not explicit:
             # inferred shapes differ between the cube types: each is judged on the shape it infers
             case.ishape = None
-        if which < 0.45 or which >= 0.9:
+        if which < 0.45 or which >= 0.7:
             env.run_ccube(prop, case, explicit=explicit)
         if which >= 0.45:
             if not explicit and any(d.size == 0 for d in case.dims):
@@ -141,6 +141,7 @@ def gen_c03(env, tier, prop="C03", funcs=None):
                 idims = env.index_dims(case)
                 arrs = [i.to_array() for i in idims]
                 c2 = cb.Case(arrs, case.ishape, case.fact, case.weights, case.ignore, case.fmt, case.func, case.p, case.N)
+                c2.share_args_with(case)
                 env.run_xcube(prop, c2, explicit=explicit, dtype=arrs[0].dtype, note="dims=to_array() of the index")
             else:
                 env.run_xcube(prop, case, explicit=explicit)
@@ -191,6 +192,10 @@ def gen_c04(env, tier):
             if fmt[0] == "plain" and case.func == "valid_count" and not case.ignore:
                 continue
             c2 = cb.Case(case.dims, case.ishape, case.fact, case.weights, case.ignore, fmt, case.func, case.p, case.N)
+            if case.fact is not None:
+                case.fact_arg(rnd)
+            case.weights_arg(rnd)
+            c2.share_args_with(case)        # the three formats and both cubes are computed from the same argument objects
             if commons is None:
                 idims = env.index_dims(c2)
                 commons = [i.common for i in idims]
@@ -226,6 +231,44 @@ def gen_c05(env, tier):
                 env.run_ccube("C05", c2, idims=dims2, explicit=False, note="inferred shape, dim %d common %d" % (d, v))
 
 
+def gen_live(env, tier, prop):
+    """one cube OBJECT used repeatedly while its dimensions are re-expressed in place (shift_common on the very index
+    objects the cube holds) or grow (append): results depend on the data only, never on what the cube was built with"""
+    rnd, gen = env.rnd, env.gen
+    for _ in range(40 if tier == "quick" else 800):
+        nd = rnd.choice([1, 2, 2, 3])
+        case = gen.shared_case(rnd.choice(["count", "count", "sum", "mean"]), nd=nd, maxrows=8, pad=False)
+        case.ishape = tuple(e + 1 for e in case.ishape)        # room for an absent common value and appended categories
+        idims = env.index_dims(case)
+        cube = env.ccube(idims, interacting_shape=tuple(case.ishape))
+
+        def evaluate(note):
+            exc = res = None
+            try:
+                res = cb.call_cube(cube, case, rnd)
+            except Exception as e:  # noqa
+                exc = "%s: %s" % (type(e).__name__, str(e)[:200])
+            env.rec.record(prop, case, res, exc, tuple(case.ishape), "ccube",
+                           note={"commons": [i.common for i in idims], "explicit_shape": True, "note": note, "live_cube": True},
+                           total=cb.total_of(case))
+        evaluate("first evaluation")
+        for step in range(3):
+            d = rnd.randrange(nd)
+            v = rnd.randrange(case.ishape[d])
+            idims[d].shift_common(v)
+            evaluate("same cube object after dims[%d].shift_common(%d) in place" % (d, v))
+        if case.func == "count" and case.weights is None:
+            # the same cube object after every dimension has grown by the same rows
+            extra_rows = rnd.choice([1, 2, 3])
+            newdims = []
+            for d in range(nd):
+                add = np.array([rnd.randrange(case.ishape[d] - 1) for _ in range(extra_rows)], dtype=np.int64)
+                idims[d].append(canonical(env.iindex, add, rnd.randrange(case.ishape[d])))
+                newdims.append(np.concatenate([case.dims[d], add]))
+            case = cb.Case(newdims, case.ishape, None, None, case.ignore, case.fmt, "count")
+            evaluate("same cube object after append() on every dimension")
+
+
 def gen_c13(env, tier):
     rnd, gen = env.rnd, env.gen
     n_cases = 500 if tier == "quick" else 8000
@@ -256,6 +299,11 @@ def stat_case(env, func, nd=None, extra=None, maxrows=8):
     ishape = tuple(extents)
     K = rnd.choice([2, 3]) if func in ("covariance", "corrcoef") else (1 if func in ("min", "max") else rnd.choice([1, 1, 2]))
     fact = gen.fact(n, K=K, small=True, allow_int=func in ("min", "max"))
+    if func in ("min", "max") and rnd.random() < 0.35:
+        # datetime facts (days since the epoch), NaT-marked or with a validity array
+        fact["dtype"] = "datetime"
+        fact["vals"] = [[Fraction(rnd.randint(0, 40))] for _ in range(n)]
+        fact["form"] = rnd.choice(["nan", "tuple"])
     if func in ("covariance", "corrcoef"):
         fact["oned"] = False
     if func in ("min", "max"):
@@ -273,6 +321,8 @@ def stat_case(env, func, nd=None, extra=None, maxrows=8):
         w = {"kind": "array", "w": [Fraction(rnd.choice([1, 2, 3, Fraction(1, 2), 0])) for _ in range(n)],
              "valid": [rnd.random() > 0.15 for _ in range(n)], "form": rnd.choice(["nan", "tuple"])}
     fmt = rnd.choice([("nan",), ("tuple", 0), ("tuple", -1)])
+    if fact["dtype"] == "datetime" and fmt[0] == "tuple":
+        fmt = ("tuple", np.datetime64("1970-01-01"))      # a sentinel of the fact's own type
     p = rnd.choice(cb.PROBS) if func in ("quantile", "wquantile") else None
     return cb.Case(dims, ishape, fact, w, rnd.random() < 0.5, fmt, func, p)
 
@@ -344,7 +394,17 @@ def gen_c03_all(env, tier):
     gen_wide(env, tier, "C03")
 
 
-GENS = {"C02": gen_c02, "C03": gen_c03_all, "C04": gen_c04, "C05": gen_c05, "C13": gen_c13, "C14": gen_c14, "C18": gen_c18}
+def gen_c02_all(env, tier):
+    gen_c02(env, tier)
+    gen_live(env, tier, "C02")
+
+
+def gen_c05_all(env, tier):
+    gen_c05(env, tier)
+    gen_live(env, tier, "C05")
+
+
+GENS = {"C02": gen_c02_all, "C03": gen_c03_all, "C04": gen_c04, "C05": gen_c05_all, "C13": gen_c13, "C14": gen_c14, "C18": gen_c18}
 
 
 def judge(chk, rec, own):
@@ -554,6 +614,8 @@ def case_from_json(c):
             if "w_event" in w:
                 w["w_event"] = [Fraction(x) for x in w["w_event"]]
     fmt = tuple(c["fmt"])
+    if len(fmt) > 1 and isinstance(fmt[1], str):
+        fmt = (fmt[0], np.datetime64(fmt[1]))
     return cb.Case(dims, tuple(c["ishape"]) if c.get("ishape") is not None else None, fact, w, c["ignore"], fmt, c["func"],
                    Fraction(c["p"]) if c.get("p") else None)
 
